@@ -24,7 +24,10 @@ RULE = ("cases = (a) stacks: a stack name (blanks, dots, '+'), 3-6 declarations 
         "working directory of the command (neutral / product dir / ups dir / stack root), then a rename or a copy "
         "of the stack to a new path; (b) version/chain records generated field by field over a clean and a dirty "
         "alphabet, written and read back; (c) hand-written-style record texts from a line grammar (comments, "
-        "quotes, missing End, fields before FLAVOR, QUALIFIERS). Non-trivial: (a) at least one declaration "
+        "quotes, missing End, fields before FLAVOR, QUALIFIERS); (d) hand-written version files whose PROD_DIR / UPS_DIR / "
+        "TABLE_FILE use $PROD_ROOT, $PROD_DIR, $UPS_DIR, $UPS_DB, $FLAVOR, near-miss macro names, relative, absolute, "
+        "none or missing values, over a random set of existing files, read by a real reader (files and cache) before and "
+        "after the stack is renamed. Non-trivial: (a) at least one declaration "
         "succeeded and was read back after the relocation, (b,c) always; distinct = distinct case digests")
 TRUSTED = ["os.path.realpath is the identity on the scratch paths (no symbolic links); os.path.join/abspath on "
            "normalised paths = concatenation of segments",
@@ -332,9 +335,11 @@ def check_reloc(ctx, case, obs):
             k = str(i)
             fview, cview = views.get(k + ":files"), views.get(k + ":cache")
             if "err" in ans:
-                mo = "ERR:" + ans["err"]
+                mo = mo_cached = "ERR:" + ans["err"]
             else:
                 mo = {"dir": ans["prod"]["dir"], "table": ans["prod"]["table"], "extra": ans["prod"]["extra"]}
+                mo_cached = ("ERR:" + ans["cached"]["err"]) if "err" in ans["cached"] else \
+                    {k: ans["cached"][k] for k in ("dir", "table", "extra")}
             wd, wt, we = want_dir(p, root, R, sn), want_table(p, root, R, sn), want_extra(p, root)
             for via, v in (("files", fview), ("cache", cview)):
                 ctx.hist("view=%s/%s" % (tag, via))
@@ -343,7 +348,7 @@ def check_reloc(ctx, case, obs):
                 else:
                     impl = v
                 # oracle (i): the files view always; the cache view after the relocation (rebuilt from the files)
-                if (via == "files" or tag == "after") and impl != mo and mo != "ERR:unmodelled":
+                if (via == "files" or tag == "after") and impl != (mo if via == "files" else mo_cached) and mo != "ERR:unmodelled":
                     ctx.disagree("reader_%s_%s" % (tag, via), inp, lib_records.subst(impl, pairs), lib_records.subst(mo, pairs), note="product %d" % i)
                 # oracle (ii)
                 clause = None
@@ -601,6 +606,148 @@ def check_rec(ctx, case, impl, answers):
 
 
 # ================================================================================================
+# (d) hand-written version files with macros, read by a real reader before and after a move
+# ================================================================================================
+
+def gen_hand(rng):
+    name, version = "hp", rng.choice(["1.0", "v2"])
+    flavor = rng.choice(FLAVORS)
+    dirs = ["Linux/hp/1.0", "opt/x y/hp", "$PROD_ROOT/opt/hp", "$PROD_ROOT", "@OUT/elsewhere/hp", "none", "$FLAVOR/hp/1.0",
+            "pkgs/$FLAVOR/hp", "$UPS_DB/inst/hp", "$PROD_DIRX/hp", None]
+    upss = ["ups", "none", None, "$PROD_DIR/ups", "$PROD_DIR/etc", "$UPS_DB/$FLAVOR/hp/1.0/ups", "$UPS_DB", "etc/ups",
+            "@OUT/elsewhere/hp/ups", "$PROD_ROOT/tables", "$UPS_DIRX"]
+    tabs = ["hp.table", "none", None, "$UPS_DIR/hp.table", "$PROD_DIR/ups/hp.table", "$UPS_DB/tables/hp.table",
+            "tables/hp.table", "@OUT/tables/hp.table", "sub/hp.table", "$PROD_ROOT/tables/hp.table", "$FLAVOR.table"]
+    fields = {"PROD_DIR": rng.choice(dirs), "UPS_DIR": rng.choice(upss), "TABLE_FILE": rng.choice(tabs)}
+    # files that exist in the stack / outside (relative to the stack root resp. the scratch root)
+    pool_in = ["Linux/hp/1.0/ups/hp.table", "opt/x y/hp/ups/hp.table", "opt/hp/ups/hp.table", "tables/hp.table", "hp.table",
+               "ups/hp.table", "Linux/hp/1.0/etc/hp.table", "ups_db/tables/hp.table", "ups_db/Linux/hp/1.0/ups/hp.table",
+               "ups_db/generic/hp/1.0/ups/hp.table", "Linux/hp/1.0/ups/sub/hp.table", "sub/hp.table", "generic/hp/1.0/ups/hp.table",
+               "pkgs/Linux/hp/ups/hp.table", "Linux.table", "Linux/hp/1.0/ups/Linux.table", "ups_db/inst/hp/ups/hp.table"]
+    pool_out = ["elsewhere/hp/ups/hp.table", "tables/hp.table"]
+    return {"kind": "hand", "name": name, "version": version, "flavor": flavor, "fields": fields,
+            "stack": rng.choice(STACKS), "new": rng.choice(NEWS),
+            "in": sorted(rng.sample(pool_in, rng.randint(0, 7))), "out": sorted(rng.sample(pool_out, rng.randint(0, 2))),
+            "end": rng.random() < 0.9}
+
+
+def hand_text(case, R):
+    lines = ["FILE = version", "PRODUCT = %s" % case["name"], "VERSION = %s" % case["version"], "#***", "", "Group:",
+             "   FLAVOR = %s" % case["flavor"], '   QUALIFIERS = ""', "   DECLARER = someone", "   DECLARED = sometime"]
+    for k in ("PROD_DIR", "UPS_DIR", "TABLE_FILE"):
+        v = case["fields"][k]
+        if v is not None:
+            lines.append("   %s = %s" % (k, v.replace("@OUT", R)))
+    if case["end"]:
+        lines.append("End:")
+    return "\n".join(lines) + "\n"
+
+
+def _child_find(stack, flavor, name, version, cwd):
+    lib_records.silence()
+    os.chdir(cwd)
+    os.environ["EUPS_PATH"] = stack
+    e = common.new_eups(flavor=flavor)
+    out = {}
+    for via, nc in (("files", True), ("cache", False)):
+        try:
+            q = e.findProduct(name, version, noCache=nc)
+            out[via] = None if q is None else {"dir": q.dir, "table": q.tablefile, "extra": q.extraProductDir()}
+        except Exception as ex:  # noqa
+            out[via] = "EXC:" + lib_records.exc_name(ex)
+    return out
+
+
+def run_hand(case):
+    R = common.scratch("c16h")
+    try:
+        stack = os.path.join(R, case["stack"])
+        for d in (stack + "/ups_db/" + case["name"], R + "/cwd", R + "/userdataA"):
+            os.makedirs(d)
+        with open(R + "/userdataA/startup.py", "w") as f:
+            f.write(common.STARTUP % {"tags": "'beta'"})
+        os.environ["EUPS_USERDATA"] = R + "/userdataA"
+        for rel, base in [(x, stack) for x in case["in"]] + [(x, R) for x in case["out"]]:
+            p = os.path.join(base, rel)
+            os.makedirs(os.path.dirname(p), exist_ok=True)
+            with open(p, "w") as f:
+                f.write("")
+        text = hand_text(case, R)
+        with open(os.path.join(stack, "ups_db", case["name"], case["version"] + ".version"), "w") as f:
+            f.write(text)
+        obs = {"R": R, "stack": stack, "text": text}
+        obs["ex_before"] = lib_records.walk(R)
+        r = common.in_child(_child_find, stack, case["flavor"], case["name"], case["version"], R + "/cwd")
+        obs["before"] = r[1] if r[0] == "ok" else "EXC:child"
+        new = os.path.join(R, case["new"])
+        os.makedirs(os.path.dirname(new), exist_ok=True)
+        os.rename(stack, new)
+        obs["new"] = new
+        obs["ex_after"] = lib_records.walk(R)
+        r = common.in_child(_child_find, new, case["flavor"], case["name"], case["version"], R + "/cwd")
+        obs["after"] = r[1] if r[0] == "ok" else "EXC:child"
+        return obs
+    finally:
+        common.rmtree(R)
+
+
+def check_hand(ctx, case, obs):
+    R, stack, new = obs["R"], obs["stack"], obs["new"]
+    pairs = [(new, "$NEW"), (stack, "$STACK"), (R, "$R")]
+    reqs = []
+    for root, ex in ((stack, obs["ex_before"]), (new, obs["ex_after"])):
+        reqs.append({"m": "c16", "op": "resolve", "text": obs["text"], "name": case["name"], "version": case["version"],
+                     "flavor": case["flavor"], "db": os.path.join(root, "ups_db"), "ex": ex})
+    answers = ctx.lean.ask_many(reqs)
+    for k in ("PROD_DIR", "UPS_DIR", "TABLE_FILE"):
+        v = case["fields"][k]
+        ctx.hist("hand:%s=%s" % (k, "missing" if v is None else "macro" if "$" in v else "abs" if v.startswith("@OUT") else v if v == "none" else "rel"))
+    for phase, ans in zip(("before", "after"), answers):
+        if "bad-op" in ans:
+            raise common.InfraError("driver: %s" % ans)
+        mo_f = ("ERR:" + ans["err"]) if "err" in ans else {k: ans["prod"][k] for k in ("dir", "table", "extra")}
+        if mo_f == "ERR:unmodelled":
+            ctx.hist("model=unmodelled")
+            continue
+        mo_c = mo_f if "err" in ans else (("ERR:" + ans["cached"]["err"]) if "err" in ans["cached"] else
+                                          {k: ans["cached"][k] for k in ("dir", "table", "extra")})
+        views = obs[phase]
+        for via in ("files", "cache"):
+            impl = views.get(via) if isinstance(views, dict) else views
+            mo = mo_f if via == "files" else mo_c
+            if impl != mo:
+                ctx.disagree("hand_reader_%s_%s" % (phase, via), case, lib_records.subst(impl, pairs), lib_records.subst(mo, pairs))
+    # oracle (ii): a record that says where things are *relative to the stack* (relative PROD_DIR or $PROD_ROOT/…) is
+    # read as pointing below the stack's current root, before and after the move; an absolute one stays put
+    pd = case["fields"]["PROD_DIR"]
+    for phase, root in (("before", stack), ("after", new)):
+        v = obs[phase].get("files") if isinstance(obs[phase], dict) else None
+        if not isinstance(v, dict):
+            ctx.fail("hand_record_readable/" + phase, case, lib_records.subst(obs[phase], pairs), None, note="reader did not return the product")
+            continue
+        want = None
+        if pd in ("Linux/hp/1.0", "opt/x y/hp"):
+            want = os.path.join(root, pd)
+        elif pd == "$PROD_ROOT/opt/hp":
+            want = os.path.join(root, "opt/hp")
+        elif pd == "$PROD_ROOT":
+            want = root
+        elif pd == "@OUT/elsewhere/hp":
+            want = os.path.join(R, "elsewhere/hp")
+        elif pd == "none":
+            want = "none"
+        elif pd == "$FLAVOR/hp/1.0":
+            want = os.path.join(root, case["flavor"], "hp/1.0")
+        elif pd == "pkgs/$FLAVOR/hp":
+            want = os.path.join(root, "pkgs", case["flavor"], "hp")
+        elif pd == "$UPS_DB/inst/hp":
+            want = os.path.join(root, "ups_db/inst/hp")
+        if want is not None and v["dir"] != want:
+            ctx.fail("hand_dir_resolves/" + phase, case, lib_records.subst(v, pairs), None,
+                     note=lib_records.subst("PROD_DIR = %s read as %r, wanted %r" % (pd, v["dir"], want), pairs))
+
+
+# ================================================================================================
 # entry points
 # ================================================================================================
 
@@ -618,6 +765,8 @@ def _work(cases):
         for c in cases:
             if c["kind"] == "reloc":
                 out.append(run_reloc(c))
+            elif c["kind"] == "hand":
+                out.append(run_hand(c))
             else:
                 out.append(run_rec(c, wd))
     finally:
@@ -637,7 +786,7 @@ def evaluate(ctx, cases, workers=6):
     # record cases: one batch of model requests
     reqs, spans = [], []
     for c, io_ in zip(cases, impl):
-        if c["kind"] == "reloc":
+        if c["kind"] in ("reloc", "hand"):
             spans.append(None)
             continue
         r = rec_requests(c, io_)
@@ -649,7 +798,10 @@ def evaluate(ctx, cases, workers=6):
             raise common.InfraError("driver: %s" % a)
     for c, io_, sp in zip(cases, impl, spans):
         key = {k: v for k, v in c.items() if not k.startswith("_")}
-        if c["kind"] == "reloc":
+        if c["kind"] == "hand":
+            check_hand(ctx, c, io_)
+            ctx.case(key=key, nontrivial=True, sample={"case": key} if ctx.evaluations % 197 == 0 else None)
+        elif c["kind"] == "reloc":
             nt = check_reloc(ctx, c, io_)
             ctx.hist("reloc=" + c["mode"])
             ctx.case(key=key, nontrivial=nt,
@@ -672,7 +824,7 @@ def corpus_cases():
 
 
 def gen_batch(rng, nreloc, nrec):
-    cases = [gen_reloc(rng) for _ in range(nreloc)]
+    cases = [gen_reloc(rng) for _ in range(nreloc)] + [gen_hand(rng) for _ in range(nreloc * 3)]
     for _ in range(nrec):
         r = rng.random()
         cases.append(gen_vrec(rng) if r < 0.35 else gen_crec(rng) if r < 0.55 else gen_text(rng, chain=r > 0.8))
@@ -697,6 +849,7 @@ def run(ctx):
 
 
 def replay(ctx, rp):
+    common.import_eups()          # before any scratch stack puts EUPS_PATH into the environment
     c = rp["input"]
     before = (len(ctx.failures), len(ctx.disagreements))
     evaluate(ctx, [c], workers=1)
